@@ -3,7 +3,8 @@ import TexcraftModel.Model.C08
 
 /-! Driver for C08. Requests:
 
-* `p <ops>` — one program with exactly one checkpoint marker. Ops are encoded as in
+* `p <v> <ops>` — one program with exactly one checkpoint marker, run by C01's model in variant
+  `v` (bit 0 = C01-a, bit 1 = C01-b, bit 2 = C01-c repaired; 7 = all). Ops are encoded as in
   `Driver/C01.lean` (`0` `{`, `1` `}`, `2 pre kind idx val`, `3 pre tk tn dk a b`, `4 pre f`,
   `5 0 kind idx` / `5 1 tk tn` / `5 2 0 0`), plus `dk = 10`: `\let`=primitive `a` of
   `C08.stdTable`, and `9` = the checkpoint.
@@ -119,13 +120,16 @@ def handle (line : String) : String :=
   | "p" :: ws =>
     match ints? ws with
     | none => "bad"
-    | some c =>
+    | some [] => "bad"
+    | some (v :: c) =>
+      if v < 0 ∨ 7 < v then "bad" else
+      let cfg : Variant := ⟨v.toNat % 2 = 1, (v.toNat / 2) % 2 = 1, (v.toNat / 4) % 2 = 1⟩
       match decOps (c.length + 1) false c with
       | none => "bad"
       | some (pre, post) =>
-        let n := showOuts (run Variant.fixed VMState.init (pre ++ post)).2
-        let f := showCk (runCheckpointed true stdTable pre post)
-        let p := showCk (runCheckpointed false stdTable pre post)
+        let n := showOuts (run cfg VMState.init (pre ++ post)).2
+        let f := showCk (runCheckpointed cfg true stdTable pre post)
+        let p := showCk (runCheckpointed cfg false stdTable pre post)
         " | ".intercalate [n, f, p]
   | "same" :: ws =>
     let a := ws.takeWhile (· ≠ "|")
